@@ -40,13 +40,13 @@ class Boom(Exception):
     pass
 
 
-def run_pool(max_size, progs, plan, opcodes=False, pooled=False):
+def run_pool(max_size, progs, plan, opcodes=False, pooled=False, yield_points=False):
     """-> (status, outcome, problems, steps, trace)"""
     import pymemcache.pool as pool_mod
     import pymemcache.client.base as base_mod
-    created, closed, inuse, problems = [], [], set(), []
+    created, closed, inuse, problems, cur_op = [], [], set(), [], {}
     exhausted = [0] * len(progs)
-    s = Sched([pool_mod.__file__] + ([base_mod.__file__] if pooled else []), plan, opcodes)
+    s = Sched([pool_mod.__file__] + ([base_mod.__file__] if pooled else []), plan, opcodes, yield_points=yield_points)
     CoopLock.sched = s
 
     class Obj:
@@ -64,7 +64,14 @@ def run_pool(max_size, progs, plan, opcodes=False, pooled=False):
                 raise Boom()
             return b"v"
 
+        def quit(self):
+            self.get(b"k")
+
         def close(self):
+            # close() / clear() closes every connection whoever holds it: that is what it is for; any other close of a connection that
+            # some thread is in the middle of using means it was handed to two threads
+            if self.id in inuse and cur_op.get(s.me()) != 2:
+                problems.append("connection %d was closed while another thread was using it" % self.id)
             closed.append(self.id)
     if pooled:
         pc = base_mod.PooledClient(("h", 1), max_pool_size=max_size, lock_generator=CoopLock)
@@ -76,9 +83,18 @@ def run_pool(max_size, progs, plan, opcodes=False, pooled=False):
     def body(tid, prog):
         def f():
             for a in prog:
+                cur_op[tid] = a
                 try:
                     if a == 2:
                         (pc.close() if pooled else pool.clear())
+                    elif a == 3 and pooled:
+                        pc.quit()           # use, then discard the connection whatever happened
+                    elif a == 3:
+                        with pool.get_and_release(destroy_on_fail=True) as o:
+                            try:
+                                o.get(b"k")
+                            finally:
+                                pool.destroy(o)
                     elif pooled:
                         pc.get(b"boom" if a == 1 else b"k")
                     else:
@@ -119,7 +135,8 @@ def run_pool(max_size, progs, plan, opcodes=False, pooled=False):
 def model_outcomes(ctx, max_size, progs, memo={}):
     key = (max_size, repr(progs))
     if key not in memo:
-        r = ctx.driver.call(1, max_size, [list(p) for p in progs], 80)
+        # quit (3) = use, then destroy: for the pool exactly what use-and-fail (1) does
+        r = ctx.driver.call(1, max_size, [[1 if a == 3 else a for a in p] for p in progs], 80)
         if r[0] != "ok":
             raise RuntimeError("model error %r" % (r,))
         memo[key] = {(tuple(f), tuple(sorted(c)), tuple(e), n, tuple(u)) for f, c, e, n, u in r[1]}
@@ -127,7 +144,8 @@ def model_outcomes(ctx, max_size, progs, memo={}):
 
 
 SCENARIOS = [(1, [[0], [0]]), (1, [[0], [1]]), (1, [[1], [1]]), (2, [[0, 0], [0]]), (2, [[0], [1], [0]]), (1, [[0], [2]]), (2, [[1], [2]]), (2, [[0, 2], [0]]),
-             (1, [[0, 0], [0, 1]]), (2, [[0], [0], [0]]), (2, [[1, 0], [2, 0]]), (3, [[0], [0], [1]]), (1, [[0, 1, 0], [2]]), (2, [[0, 0, 0], [1, 1]])]
+             (1, [[0, 0], [0, 1]]), (2, [[0], [0], [0]]), (2, [[1, 0], [2, 0]]), (3, [[0], [0], [1]]), (1, [[0, 1, 0], [2]]), (2, [[0, 0, 0], [1, 1]]),
+             (1, [[3], [0]]), (2, [[3, 0], [0]]), (2, [[0], [3], [0]])]
 
 
 def plans_for(n, bound, rng, limit):
@@ -172,6 +190,12 @@ def explore(ctx, check):
                     r = run_pool(max_size, progs, plan, opcodes, pooled)
                     ctx.c08_runs.append((((max_size, progs), plan, opcodes, pooled), r))
                     check((max_size, progs), plan, opcodes, pooled, r)
+                    if len(plan) <= 1 and not opcodes:
+                        # the same plan with blocking socket calls: a thread inside its socket call lets the others run
+                        n += 1
+                        r = run_pool(max_size, progs, plan, opcodes, pooled, True)
+                        ctx.c08_runs.append((((max_size, progs), plan + ("yield",), opcodes, pooled), r))
+                        check((max_size, progs), plan + ("yield",), opcodes, pooled, r)
     return n
 
 
@@ -188,7 +212,7 @@ def correspondence(ctx):
         seen.setdefault((sc[0], repr(sc[1])), set()).add(o)
         if o not in outs:
             dis.append({"scenario": repr(sc), "class": "PooledClient" if pooled else "ObjectPool", "granularity": "opcode" if opcodes else "line",
-                        "preempt_at": list(plan), "impl_outcome": repr(outcome), "model_outcomes": repr(sorted(outs))[:400]})
+                        "preempt_at": [x for x in plan if x != "yield"], "socket_calls_block": "yield" in plan, "impl_outcome": repr(outcome), "model_outcomes": repr(sorted(outs))[:400]})
             return len(dis) >= 5
         return False
     n = explore(ctx, check)
@@ -196,7 +220,7 @@ def correspondence(ctx):
     total = sum(len(model_outcomes(ctx, m, p)) for m, p in SCENARIOS)
     return {"evaluations": n, "distinct_nontrivial": n - 4 * len(SCENARIOS),
             "rule": "the real ObjectPool and PooledClient (stub connections) under the deterministic scheduler: %d scenarios of 2-3 threads with 1-3 "
-                    "operations (use, use-and-fail, clear), every single preemption point and sampled pairs of preemption points at source-line "
+                    "operations (use, use-and-fail, clear, quit), every single preemption point and sampled pairs of preemption points at source-line "
                     "granularity (and at bytecode-instruction granularity in the thorough tier / for 2-thread ObjectPool scenarios), lock contention "
                     "resolved by the scheduler; each run's final outcome (idle list in order, closed objects, exhaustion count per thread, objects "
                     "created, still checked out) must be one of the outcomes the Coq model reaches under SOME schedule (exhaustive in the model). "
@@ -212,8 +236,9 @@ def search(ctx):
         status, outcome, problems, steps, trace = r
         if problems:
             found.append({"clause": problems[0], "input": {"class": "PooledClient" if pooled else "ObjectPool", "max_size": sc[0], "programs": repr(sc[1]),
-                                                            "granularity": "opcode" if opcodes else "line", "preempt_at_steps": list(plan)},
-                          "observed": repr(outcome), "schedule": [(t, w[1:]) for t, w in trace][:80], "size": len(plan) * 1000 + steps,
+                                                            "granularity": "opcode" if opcodes else "line", "preempt_at_steps": [x for x in plan if x != "yield"],
+                                                            "socket_calls_block": "yield" in plan},
+                          "observed": repr(outcome), "schedule": [(t, w[1:]) for t, w in trace][:80], "size": len([x for x in plan if x != "yield"]) * 1000 + steps,
                           "case": repr((sc, plan, opcodes, pooled))})
             return len(found) >= 8
         return False
@@ -228,6 +253,6 @@ def replay(ctx, obj):
     if not v or not v.get("case"):
         return None
     sc, plan, opcodes, pooled = eval(v["case"])
-    r = run_pool(sc[0], sc[1], plan, opcodes, pooled)
+    r = run_pool(sc[0], sc[1], tuple(x for x in plan if x != "yield"), opcodes, pooled, "yield" in plan)
     print(r[0], r[1], r[2])
     return bool(r[2])
